@@ -54,7 +54,7 @@ def diff(spec, real, path=""):
 
 
 class Graph:
-    def __init__(self, edges, key_fields_drop=("out", "val")):
+    def __init__(self, edges, key_fields_drop=("out", "val", "seen")):
         self.nodes = {}
         self.out = defaultdict(lambda: defaultdict(list))   # node -> actkey -> [edge]
         self.init = None
@@ -84,33 +84,50 @@ class Mismatch(Exception):
         self.info = info
 
 
-def step(adapter, graph, node, akey):
-    """Perform one real call for (node, akey); return (edge matched) or raise Mismatch."""
-    edges = graph.out[node][akey]
-    act = edges[0]["act"]
+def _match(e, outcome, real):
+    d = []
+    for k in outcome:
+        if k in e["act"] and outcome.get(k) != e["act"][k]:
+            d.append(f"outcome.{k}: spec {e['act'][k]!r} != code {outcome.get(k)!r}")
+    d += diff(e["obs"], real)
+    return d
+
+
+def step(adapter, graph, cands, akey):
+    """Perform one real call for action `akey` from the candidate model states `cands` (a set: the spec
+    may be nondeterministic in ways that are not immediately observable).  Returns the list of
+    (node, edge) that explain what the code did, or raises Mismatch when none does."""
+    act = None
+    for n in cands:
+        if akey in graph.out[n]:
+            act = graph.out[n][akey][0]["act"]
+            break
+    if act is None:
+        raise AssertionError("action not enabled in any candidate state")
     outcome = adapter.apply(act)
     real = adapter.observe()
-    problems = []
-    for e in edges:
-        exp_out = {k: e["act"][k] for k in ("out", "val") if k in e["act"]}
-        d = []
-        for k, v in exp_out.items():
-            if outcome.get(k) != v:
-                d.append(f"outcome.{k}: spec {v!r} != code {outcome.get(k)!r}")
-        d += diff(e["obs"], real)
-        if not d:
-            return e
-        problems.append(d)
-    raise Mismatch({"action": act, "observed_outcome": outcome, "observed": real,
-                    "allowed": [{"act": e["act"], "obs": e["obs"]} for e in edges][:4],
-                    "differences": problems[0][:12]})
+    ok, problems, allowed = [], [], []
+    for n in sorted(cands):
+        for e in graph.out[n].get(akey, ()):
+            d = _match(e, outcome, real)
+            if not d:
+                ok.append((n, e))
+            else:
+                problems.append(d)
+                allowed.append({"act": e["act"], "obs": e["obs"]})
+    if ok:
+        return ok
+    raise Mismatch({"action": act, "observed_outcome": outcome, "observed": real, "allowed": allowed[:4],
+                    "differences": (problems[0] if problems else ["no edge"])[:12]})
 
 
 def cover(graph: Graph, adapter_factory, *, seed=0, max_path=80, known=None, budget_s=None, stop_after=5):
     """Exercise every (state, action) pair on real objects.  Returns (stats, violations, known_hits,
-    known_gone, samples).  known(act) -> finding id or None: such pairs are tried only when nothing
-    else is left at a state; a mismatch there is a KNOWN finding (the path ends, because the code has
-    left the model), a match means the finding is gone."""
+    known_gone, samples).  The replay tracks the SET of model states compatible with everything
+    observed so far; a step is a violation only if no candidate state has an edge that explains the
+    code's outcome and observation.  known(act) -> finding id or None: such pairs are tried only when
+    nothing else is left at a state; a mismatch there is a KNOWN finding (the path ends, because the
+    code has left the model), a match means the finding is gone."""
     rnd = random.Random(seed)
     todo = set(graph.pairs())
     total_pairs = len(todo)
@@ -124,10 +141,11 @@ def cover(graph: Graph, adapter_factory, *, seed=0, max_path=80, known=None, bud
         if budget_s and time.time() - t0 > budget_s:
             break
         adapter = adapter_factory()
-        node, path, progressed = graph.init, [], False
+        cands, path, progressed = {graph.init}, [], False
         stats["paths"] += 1
         try:
             while len(path) < max_path:
+                node = sorted(cands)[0]
                 here = [a for a in graph.out[node] if (node, a) in todo]
                 normal = sorted(a for a in here if not is_known(node, a))
                 if normal:
@@ -145,13 +163,16 @@ def cover(graph: Graph, adapter_factory, *, seed=0, max_path=80, known=None, bud
                                 break
                 stop = False
                 for akey in seq:
-                    act0 = graph.out[node][akey][0]["act"]
-                    fid = is_known(node, akey)
+                    if not any(akey in graph.out[n] for n in cands):
+                        break                       # the code took another allowed branch: re-plan
+                    act0 = next(graph.out[n][akey][0]["act"] for n in sorted(cands) if akey in graph.out[n])
+                    fid = known(act0) if known else None
                     try:
-                        e = step(adapter, graph, node, akey)
+                        oks = step(adapter, graph, cands, akey)
                     except Mismatch as m:
-                        if (node, akey) in todo:
-                            todo.discard((node, akey)); progressed = True
+                        for n in cands:
+                            if (n, akey) in todo:
+                                todo.discard((n, akey)); progressed = True
                         if fid:
                             known_hits.setdefault(fid, {"path": path + [act0], **m.info})
                         else:
@@ -160,12 +181,13 @@ def cover(graph: Graph, adapter_factory, *, seed=0, max_path=80, known=None, bud
                         break
                     if fid:
                         known_gone.add(fid)
-                    if (node, akey) in todo:
-                        todo.discard((node, akey)); progressed = True
+                    for n, e in oks:
+                        if (n, akey) in todo:
+                            todo.discard((n, akey)); progressed = True
+                        matched.add((n, akey, e["to"]))
                     stats["steps"] += 1
-                    matched.add((node, akey, e["to"]))
-                    path.append(e["act"])
-                    node = e["to"]
+                    path.append(oks[0][1]["act"])
+                    cands = {e["to"] for _, e in oks}
                 if stop:
                     break
         finally:
